@@ -183,7 +183,7 @@ def job(u, case, tier, canary):
     res = {"unit": u["unit"], "case": case["name"], "canary": canary, "status": "infra",
            "props": [], "solver_s": 0.0, "wall_s": 0.0, "why": "", "wd": wd}
     t0 = time.time()
-    w = GATE.acquire(u["weight_gb"])
+    w = GATE.acquire(u.get("weight_gb_" + tier, u["weight_gb"]))
     try:
         _job(u, case, tier, canary, wd, res)
     except Infra as e:
@@ -246,8 +246,9 @@ def _job(u, case, tier, canary, wd, res):
         if key and not os.environ.get("VERIF_NO_CACHE") and from_cache():
             return
         # ... and a machine-wide cap on heavy jobs (expected memory >= 4 GB), whoever started them
-        if u["weight_gb"] >= 4:
-            nslots = max(1, MEM_BUDGET_GB // int(u["weight_gb"]))
+        wgb = u.get("weight_gb_" + tier, u["weight_gb"])
+        if wgb >= 4:
+            nslots = max(1, MEM_BUDGET_GB // int(wgb))
             while slot is None:
                 for i in range(nslots):
                     f = open(os.path.join(CACHE, "heavy-slot-%d" % i), "w")
@@ -343,7 +344,7 @@ def _after_instrument(u, case, tier, canary, wd, res, cmd, fn):
     if canary is True and not u.get("plain"):
         cb += ["--property", "%s.postcondition.%d" % (fn, n_posts + 1)]
     res["checker_cmd"] = " ".join(cmd[:-2]) + " ; " + " ".join(cb)
-    rc, txt, dt = run(cb, wd, u["timeout"], u["mem_gb"], out=os.path.join(wd, "cbmc.json"))
+    rc, txt, dt = run(cb, wd, case.get("timeout", u.get("timeout_" + tier, u["timeout"])), u.get("mem_gb_" + tier, u["mem_gb"]), out=os.path.join(wd, "cbmc.json"))
     res["solver_s"] = round(dt, 2)
     if rc is None:
         raise Infra("cbmc " + txt)
